@@ -11,8 +11,8 @@ from . import filegen, timesgen
 from .filegen import FMT, ydm_to_ms
 
 OPS = ["getTimes", "getLonLat", "getMask", "getQualFlags", "getCounts", "getTelemetry", "dataset", "calibrated",
-       "angles", "readMeta"]
-COORD_OPS = {"getLonLat", "dataset", "calibrated", "angles"}
+       "angles", "readMeta", "save"]
+COORD_OPS = {"getLonLat", "dataset", "calibrated", "angles", "save"}
 
 
 def dig(*arrays):
@@ -146,6 +146,27 @@ def perform(r, op):
         return ("angles", dig(*r.get_angles()))
     if op == "readMeta":
         return ("meta", meta_view(r.meta_data))
+    if op == "save":
+        # legacy HDF5 output of the whole pass; the value is the content of the three files
+        import glob
+        import shutil
+        import tempfile
+        import warnings
+        import h5py
+        out = tempfile.mkdtemp(prefix="save", dir=os.path.join(os.path.dirname(os.path.dirname(os.path.abspath(__file__))), ".scratch"))
+        try:
+            with warnings.catch_warnings():
+                warnings.simplefilter("ignore")
+                r.save(0, 0, output_file_prefix="V", output_dir=out)
+            parts = []
+            for kind in ("avhrr", "sunsatangles", "qualflags"):
+                with h5py.File(glob.glob(os.path.join(out, "V_%s_*.h5" % kind))[0], "r") as f:
+                    names = []
+                    f.visit(lambda n: names.append(n) if isinstance(f[n], h5py.Dataset) else None)
+                    parts.append(dig(*[f[n][...] for n in sorted(names) if f[n].dtype.kind in "iuf"]))
+            return ("saved", tuple(parts))
+        finally:
+            shutil.rmtree(out, ignore_errors=True)
     raise ValueError(op)
 
 
